@@ -76,6 +76,33 @@ func VerifRun_C02c() {
 	if class == "" && (!found || string(got) != string(want2)) {
 		verifViolation("", "after a second incremental didChange the cached text differs from the client's text")
 	}
+	// didSave carries the text (the server registers save with includeText): the cache keeps the client's text
+	if class == "" {
+		txt := string(want2)
+		_ = l.TextDocumentDidSave(ctx, lsp.DidSaveTextDocumentParams{TextDocument: lsp.TextDocumentIdentifier{URI: uri}, Text: &txt})
+		got, found = l.fileCache.GetFileContent(file)
+		if !found || string(got) != string(want2) {
+			verifViolation("", "after didSave the cached text differs from the client's text")
+		}
+	}
 	_ = l.TextDocumentDidClose(ctx, lsp.DidCloseTextDocumentParams{TextDocument: lsp.TextDocumentIdentifier{URI: uri}})
 	verifReach("closed")
+	// the document is opened again with another text: nothing of the previous session may survive
+	{
+		re := verifBytesIn("re", 1, "c\n")
+		_ = l.TextDocumentDidOpen(ctx, lsp.DidOpenTextDocumentParams{TextDocument: lsp.TextDocumentItem{URI: uri, Text: string(re)}})
+		got, found = l.fileCache.GetFileContent(file)
+		if !found || string(got) != string(re) {
+			verifViolation("", "after closing and re-opening a document the cached text differs from the re-opened text")
+		}
+		_ = l.TextDocumentDidChange(ctx, lsp.DidChangeTextDocumentParams{
+			TextDocument: lsp.VersionedTextDocumentIdentifier{TextDocumentIdentifier: lsp.TextDocumentIdentifier{URI: uri}},
+			ContentChanges: []lsp.TextDocumentContentChangeEvent{{
+				Range: &lsp.Range{Start: lsp.Position{Line: 0, Character: 0}, End: lsp.Position{Line: 0, Character: 0}},
+				Text:  "k"}}})
+		got, found = l.fileCache.GetFileContent(file)
+		if !found || string(got) != "k"+string(re) {
+			verifViolation("", "an edit after re-opening is not applied to the re-opened text")
+		}
+	}
 }
